@@ -543,6 +543,25 @@ def check_forest_emission(rep, prog):
             if reach_without:
                 rep.violation('R16f', d, fn, what, 'the emission is also reached when the endpoint was already reached', key='R16f|%s|guard-polarity' % fn.g)
                 continue
+            # any further condition that keeps a still-unreached neighbour from being attached (other than the self-loop test and the loop
+            # headers) may lose a tree edge: the forest would not span its component.  Whether it can hold for an unreached vertex is value-level.
+            extra = []
+            for o_ in ex.opaque_nodes(fn, pc):
+                lp_ = o_.enclosing('ForStmt', 'WhileStmt', 'CXXForRangeStmt', 'DoStmt')
+                if lp_ is not None and lp_.cond is not None and (lp_.cond.strip() is o_ or lp_.cond.is_ancestor_of(o_)):
+                    continue
+                s_ = o_.strip_all()
+                if s_.k in ('BinaryOperator', 'CXXOperatorCallExpr') and s_.op in ('==', '!='):
+                    ops_ = s_.c if s_.k == 'BinaryOperator' else s_.c[1:]
+                    if len(ops_) == 2 and all(ex.var_of(x) is not None for x in ops_) and any(ex.key(x) == ex.key(kn) for x in ops_ for kn in sets.values()):
+                        continue        # w == u: the self-loop test between two plain vertex variables
+                inner_ = d.enclosing('ForStmt', 'WhileStmt', 'CXXForRangeStmt', 'DoStmt')
+                if inner_ is None or inner_.body is None or not inner_.body.is_ancestor_of(o_):
+                    continue            # a condition outside the neighbour loop (early return for the empty graph, component loop)
+                extra.append(o_)
+            if extra:
+                rep.undecided('R16f', d, fn, what, 'the emission additionally depends on `%s`: if that can hold for a still-unreached neighbour a tree edge is lost' % extra[0].text(50))
+                continue
             # erase + push on the same path
             pd = cfg.pos_of(d)
             erased = bool(erased_by_test)
